@@ -1,6 +1,7 @@
 import GormModel.Drv.Util
 import GormModel.Model.Identity
 import GormModel.Model.JoinScan
+import GormModel.Model.PreloadBatch
 import GormModel.Gen.PreloadFacts
 open Lean
 namespace Gorm.Drv
@@ -199,6 +200,23 @@ def handleC11 (op : String) (args : Array Json) : Option Json := do
     some (Json.mkObj [
       ("alloc", strListJ (st.alloc.map relPathStr)),
       ("sets", strListJ ((st.sets.filter (fun x => !x.2.2)).map (fun x => relPathStr x.1 ++ "." ++ String.ofList x.2.1)))])
+  | "batch.fetch" =>
+    -- ["batch.fetch", cloning, [children], [[tuple…]…]] -> [child ids fetched, batch after batch]
+    let cl ← jBool? (arg args 1)
+    let cs ← (← jArr? (arg args 2)).toList.mapM parseKChild
+    let bs ← (← jArr? (arg args 3)).toList.mapM (fun b => do
+      (← jArr? b).toList.mapM (fun t => do (← jArr? t).toList.mapM parseKeyVal))
+    some (natListJ ((batchedFetch cl cs ⟨[]⟩ bs).map (·.id)))
+  | "site.fetch" =>
+    -- ["site.fetch", siteIndex, txClones, batchSize, [children], [tuple…]] -> child ids the current tree's k-th query site
+    -- of preload fetches (split = chunks of batchSize, sub = first batchSize tuples; both unused by a whole-list, loop-free site)
+    let k ← jNat? (arg args 1)
+    let cl ← jBool? (arg args 2)
+    let n ← jNat? (arg args 3)
+    let cs ← (← jArr? (arg args 4)).toList.mapM parseKChild
+    let vs ← (← jArr? (arg args 5)).toList.mapM (fun t => do (← jArr? t).toList.mapM parseKeyVal)
+    let s ← currentFindSites[k]?
+    some (natListJ ((siteFetch s cl (chunks (n + 1) vs.length) (fun l => l.take (n + 1)) cs vs).map (·.id)))
   | "join.on" =>
     let refs ← (← jArr? (arg args 1)).toList.mapM parseJoinRef
     let qc ← jNat? (arg args 2)
